@@ -409,6 +409,32 @@ func c01(run *core.Run, replay string) {
 				Size: 4*int(bs) + 777, Seed: S + int64(ci), HintMode: []string{"absent", "exact"}[ji%2], DecJobs: decJ[(ci+ji)%len(decJ)]})
 		}
 	}
+	// 6d. data much shorter than the block size, and a short last block after full ones, at block sizes of 1..16 MiB: every
+	// transform on the content it is made for (the two sides see different lengths: real block length vs buffer sized from -b)
+	aff := map[string]string{"DNA": "dna", "PACK": "smallalpha", "UTF": "cyrillic", "TEXT": "wordlist", "EXE": "elfx86", "MM": "wav", "RLT": "longruns", "ZRLT": "zeros", "ROLZ": "repeatblocks", "ROLZX": "html", "LZP": "repeatblocks"}
+	for ti, t := range kz.Transforms[1:] {
+		sh := aff[t]
+		if sh == "" {
+			sh = []string{"text", "html", "wordlist"}[ti%3]
+		}
+		for vi, v := range [][2]int{{1 << 22, 1<<20 + 4321}, {1 << 24, 1500000}, {1 << 20, 1<<20 + 1<<19 + 77}} {
+			if !run.Thorough() && (ti+vi)%3 == 2 && t != "TEXT" {
+				continue
+			}
+			if (t == "BWT" || t == "BWTS") && vi == 1 {
+				continue
+			}
+			add(rtCase{Cfg: kz.Cfg{Transform: t, Entropy: lightE[(ti+vi)%len(lightE)], BlockSize: uint(v[0]), Jobs: []uint{1, 2}[vi%2], Checksum: cks[(ti+vi)%3]},
+				Shape: sh, Size: v[1], Seed: S + int64(ti*3+vi), HintMode: []string{"absent", "exact"}[(ti+vi)%2], DecJobs: decJ[(ti+vi)%3], Target: t})
+		}
+	}
+	// both variants of the text codec on vocabularies that overflow the dictionary, in a block shorter than the block size
+	for vi, e := range []string{"NONE", "FPAQ", "HUFFMAN", "ANS1", "RANGE", "FPAQ"} {
+		for q := 0; q < 2; q++ {
+			add(rtCase{Cfg: kz.Cfg{Transform: []string{"TEXT", "TEXT+UTF", "LZP+TEXT"}[vi%3], Entropy: e, BlockSize: []uint{4 << 20, 8 << 20}[q], Jobs: 1, Checksum: cks[vi%3]},
+				Shape: "wordlist", Size: []int{1 << 20, 1900000, 1300000}[(vi+q)%3] + 16*vi, Seed: S*31 + int64(vi*2+q), HintMode: []string{"exact", "absent"}[q], DecJobs: 1, Target: "TEXT"})
+		}
+	}
 	if run.Thorough() {
 		// all ordered transform pairs x 6 shapes; all 19x9 codec pairs; big blocks
 		for _, a := range kz.Transforms[1:] {
